@@ -80,7 +80,7 @@ def record(seed, length, universe):
     try:
         for _ in range(length):
             f = rng.choice(fams)
-            kind = rng.choices(["write", "multi", "reject", "rejmulti", "install"], [6, 2, 1, 2, 2])[0]
+            kind = rng.choices(["write", "multi", "reject", "rejmulti", "install"], [6, 2, 2, 2, 2])[0]
             ev = None
             fronts = [fr for fr, ff in FRONT_OF.items() if ff == f]
             if kind == "install" and not fronts:
@@ -122,12 +122,20 @@ def record(seed, length, universe):
                         # state may contain a key outside the universe; stop this trace here
                         break
             else:
-                k = rng.choice(keys_of(f)); rk = rng.choice(["charge", "shape", "type"]); api = rng.choice(["add", "update"])
+                k = rng.choice(keys_of(f)); rk = rng.choice(["charge", "shape", "type", "missing", "none", "text"]); api = rng.choice(["add", "update"])
                 if rk == "shape" and f == "wavelength":
                     continue
-                if not c06.api_reject(root, k, rk, api):
+                fld = None
+                if rk in ("missing", "none", "text"):
+                    flds = c06.corrupt_fields(f, c06.value(k, 2))
+                    if not flds:
+                        continue
+                    fld = rng.choice(flds)
+                if not c06.api_reject(root, k, rk, api, fld):
                     break
                 ev = {"op": "reject", "k": k, "kind": rk, "api": api}
+                if fld is not None:
+                    ev["fld"] = fld
             if ev is not None:
                 ev["post"] = readback(root, universe)
                 trace.append(ev)
@@ -155,7 +163,7 @@ def validate(v, traces, label="Trace_Repository"):
     tdir.mkdir(parents=True, exist_ok=True)
     tf = tdir / f"c06-{os.getpid()}.json"
     tf.write_text(json.dumps(traces))
-    cfg = c06.CFG.format(apis='{"add", "update"}', maxhist=0, maxmulti=0, same="FALSE", fronts=c06.ALLF, probes="{FALSE}", **UNIVERSE_CFG)
+    cfg = c06.CFG.format(apis='{"add", "update"}', maxhist=0, maxmulti=0, same="FALSE", fronts=c06.ALLF, probes="{FALSE}", fieldrej="FALSE", **UNIVERSE_CFG)
     cfg = cfg.replace("SPECIFICATION Spec", "SPECIFICATION TraceSpec").replace("ACTION_CONSTRAINT Emit\n", "")
     cfg = cfg.replace("INVARIANT LastWriteWins\n", "").replace("PROPERTY OthersUntouched\n", "").replace("VIEW View\n", "")
     cfg += "INVARIANT Progress\n"
